@@ -137,6 +137,50 @@ def closures(chk, stats):
     pyprog.drop_module(mod)
 
 
+def interrupted_emission(chk, rng):
+    """a subscriber of the overriding probe raises while an event is being delivered (the exception leaves the
+    probed call, the caller catches it): later bindings are overridden, or left alone, on their own merits"""
+    import ptera
+    from ptera import ABSENT
+    src = "def f(x):\n    a = x * 2\n    b = a + 1\n    return b\n"
+    n = 6 if chk.tier == "quick" else 60
+    for i in range(n):
+        mod = pyprog.make_module(src, "verif_c04_interrupted")
+        limit = rng.randrange(2, 12)
+        xs = [rng.randrange(0, 9) for _ in range(rng.randrange(3, 7))]
+        boom_first = rng.random() < 0.5
+
+        def boom(data):
+            if data["a"] > limit:
+                raise mod_error("subscriber")
+        mod_error = type("SubscriberError", (Exception,), {})
+        got = []
+        try:
+            p = ptera.probing("f > a", env=mod.__dict__, overridable=True)
+            if boom_first:
+                p.subscribe(boom)
+            p.override(lambda data: 1000 if data["a"] > limit else ABSENT)
+            if not boom_first:
+                p.subscribe(boom)
+            with p:
+                for x in xs:
+                    try:
+                        got.append(mod.f(x))
+                    except mod_error:
+                        got.append("raised")
+        except Exception as e:
+            got = "failed: %s: %s" % (type(e).__name__, e)
+        want = ["raised" if x * 2 > limit else x * 2 + 1 for x in xs]
+        chk.count(("interrupted", limit, tuple(xs), boom_first), nontrivial="raised" in want and want[-1] != "raised")
+        chk.dist("interrupted-emission")
+        if got != want:
+            chk.violation("oracle", "override of a (1000 when a > %d) with a subscriber that raises for the same events: "
+                          "calls f(x) for x in %s give %s, expected %s" % (limit, xs, got, want),
+                          {"source": src, "limit": limit, "args": xs, "raiser_subscribed_first": boom_first,
+                           "got": got, "want": want})
+        pyprog.drop_module(mod)
+
+
 def run(chk):
     m2corr.ast_leg(chk, 80 if chk.tier == "quick" else 1500)
     m2corr.exec_leg(chk, 100 if chk.tier == "quick" else 2000, probes=False)
@@ -171,6 +215,7 @@ def run(chk):
         if i % 30 == 0:
             chk.sample({"source": src, "twin": pylite.render(fn, twin=True, subst=(names[0], "SUBST"))})
     closures(chk, stats)
+    interrupted_emission(chk, rng)
     successive_probes(chk, rng)
     chk.cov["oracle"]["twin"] = stats
 
